@@ -204,12 +204,13 @@ func (r *c15Run) e2eCall(op *c15Op, last bool) []string {
 			time.Sleep(200 * time.Microsecond)
 		}
 		if !done {
+			// not a matter of whole seconds: reported even though the wait ran across second boundaries, if it
+			// reproduces on three consecutive runs of the history (c15RunCase)
 			s := r.snap()
-			r.always("out", s)
-			r.fail("failover/not-reinstated-after-successful-probe", fmt.Sprintf("the probe of endpoint %d was answered but 3 s later the endpoint has not been put back (status=%v rr=%b)", sh.eid, adp.VerifC15Health().Status, s.rr))
-			return append(lbl, fmt.Sprintf("([%s], %s)", labels, r.obs(s, true)))
+			r.hard = append(r.hard, Failure{Sig: "failover/not-reinstated-after-successful-probe", Desc: fmt.Sprintf("the probe of endpoint %d was answered but 3 s later the endpoint has not been put back (status=%v rr=%b)", sh.eid, adp.VerifC15Health().Status, s.rr)})
+			r.straddled = true
+			return lbl
 		}
-		r.pcall[ai] = true
 		delete(r.pcall, ai)
 		l, s2 := r.afterReinstate(ai)
 		r.always("reinst", s2)
@@ -294,6 +295,12 @@ func c15E2EGenOne(rng *rand.Rand, i int) c15Case {
 			for _, x := range b.reg {
 				b.net(x, true)
 				b.up(x, true)
+			}
+			if b.coin(0.6) {
+				for q := 0; q < len(b.reg)+1; q++ {
+					b.call(0, 0, false) // answered fallback calls are not probes
+				}
+				b.check()
 			}
 			b.adv(30)
 			b.check()
@@ -380,6 +387,10 @@ func c15E2ECorpus() []c15Case {
 		}
 		b.net(2, true)
 		b.up(3, true)
+		for i := 0; i < 4; i++ {
+			b.call(0, 0, false) // answered, but not probes: both endpoints stay blocked
+		}
+		b.check()
 		b.adv(30)
 		b.check()
 		for i := 0; i < 4; i++ {
